@@ -173,8 +173,8 @@ CHECKS["C11"] = {
 MANIFEST_TEXT = {
     "C05": {
         "technique": "regenerated regex facts (T2, decide) + Lean 4 theorems about recognisers, layout builder and content rules + differential correspondence judged by independent recognisers",
-        "text": "T2_patterns: every regexp.MustCompile constant of valid/init.go is re-extracted on each run and its regexp/syntax normal form must equal the one the model's recognisers transcribe (a widened class, a dropped anchor or an unescaped dot changes it). Theorems for every byte string / separator: C05_int, C05_phone (model recogniser = Spec.Lang), C05_timefmt_year/year2month/date/datetime (the layout is the components interleaved with the given separators), C05_date_uses_layout, C05_unique_string, C05_prefix_suffix. Tie: stream lang (60k cases quick): each of 20 rules on members of its language, 1-3 single-rune edits and random strings, custom / doubled / layout-significant separators, quoted options, through Var/Struct/Map/Url; the implementation's verdict is judged against the independent recognisers of Spec.Lang (phone, email, idcard, int, float, year, year2month, date, datetime, in, include, ints, unique, prefix, suffix), its text against the model.",
-        "note": "Trusted: Lean kernel; Spec.Lang as the reading of the documentation; regexp and time semantics of the stdlib; email / idcard / float recogniser-vs-spec equivalence is checked by the stream, not yet a theorem. Genuine defect found by this check and repaired (F-C05-f).",
+        "text": "T2_patterns: every regexp.MustCompile constant of valid/init.go is re-extracted on each run and its regexp/syntax normal form must equal the one the model's recognisers transcribe (a widened class, a dropped anchor or an unescaped dot changes it). Theorems for every byte string / separator: C05_int, C05_phone, C05_float, C05_idcard (model recogniser = independent Spec.Lang recogniser), C05_timefmt_year/year2month/date/datetime (the layout is the components interleaved with the given separators), C05_date_uses_layout, C05_unique_string, C05_prefix_suffix. Tie: stream lang (60k cases quick): each of 20 rules on members of its language, 1-3 single-rune edits and random strings, custom / doubled / layout-significant separators, quoted options, through Var/Struct/Map/Url; the implementation's verdict is judged against the independent recognisers of Spec.Lang (phone, email, idcard, int, float, year, year2month, date, datetime, in, include, ints, unique, prefix, suffix), its text against the model.",
+        "note": "Trusted: Lean kernel; Spec.Lang as the reading of the documentation; regexp and time semantics of the stdlib; email recogniser-vs-spec equivalence is checked by the stream, not yet a theorem. Genuine defect found by this check and repaired (F-C05-f).",
     },
     "C08": {
         "technique": "Lean 4 theorems (coherence invariant by induction over call histories, for every sound cache; soundness of LRU / map / always-miss) + differential correspondence, one process per cache configuration",
